@@ -66,7 +66,7 @@ def apply_transfer_functions(obj, dx, tfs, fx=None, fy=None, ft=None, fr=None, s
     """
     if any(callable(tf) for tf in tfs):
         if fx is None:
-            fy, fx = [forward_ft_unit(dx, n) for n in obj.shape]
+            fy, fx = [forward_ft_unit(dx, n, shift=shift) for n in obj.shape]
 
         fx, fy = optimize_xy_separable(fx, fy)
         fr, ft = cart_to_polar(fx, fy)
@@ -99,5 +99,7 @@ def apply_transfer_functions(obj, dx, tfs, fx=None, fy=None, ft=None, fr=None, s
         return fft.fftshift(fft.ifft2(fft.ifftshift(O))).real
     # no if shift on this side, [i]fft will always place the origin at [0,0]
     # real inside shift - 2x faster to shift real than to shift complex
-    i = fft.fftshift(fft.ifft2(O).real)
+    # origin at [0,0] convention: nothing is shifted on the way in, so nothing
+    # is shifted on the way out (an all-ones transfer function is the identity)
+    i = fft.ifft2(O).real
     return i
